@@ -138,7 +138,10 @@ func runConfig(c config) {
 	run.Count("transports_started", 1)
 	before := app.Snapshot(dir)
 
-	// --- wrong setup code first (nothing may be stored)
+	// --- wrong setup code first (nothing may be stored).  In every second configuration "the same controller" goes on
+	// with the right code on the SAME connection (somebody mistyped the code), otherwise on a new one.
+	var retryConn *refctl.Conn
+	sameConn := c.PreStored == 0 && rnd.Intn(2) == 0
 	if c.PreStored == 0 {
 		bad := refctl.NewIdentity("intruder-"+c.CtrlID, rnd)
 		wrong := randomPin(rnd)
@@ -165,7 +168,11 @@ func runConfig(c config) {
 		} else {
 			run.Count("wrong_code_refused", 1)
 		}
-		cn.Close()
+		if sameConn {
+			retryConn = cn
+		} else {
+			cn.Close()
+		}
 		if d := app.DiffSnapshots(before, app.Snapshot(dir)); len(d) > 0 {
 			fail(c, "wrong-code:storage-changed", fmt.Sprintf("storage changed after a failed pair-setup: %v", d), nil)
 		}
@@ -180,11 +187,31 @@ func runConfig(c config) {
 	}
 	cn.Timeout = 10 * time.Second
 	cn.TLVStyle, cn.StyleRand = c.TLVStyle, rnd
-	s, err := cn.PairSetup(me, a.Code(), rnd)
-	cn.Close()
-	if err != nil {
-		fail(c, "setup:"+stageSig(err), "pair-setup with the right code failed: "+err.Error(), nil)
-		return
+	var s *refctl.Setup
+	if retryConn != nil {
+		// on the connection of the refused attempt; the accessory may refuse one start request there (C13 states that
+		// allowance), the second complete attempt must succeed
+		cn.Close()
+		cn = retryConn
+		cn.TLVStyle, cn.StyleRand = c.TLVStyle, rnd
+		s, err = cn.PairSetup(me, a.Code(), rnd)
+		if err != nil && strings.HasPrefix(stageSig(err), "setup.M2") {
+			run.Count("right_code_after_wrong_code_on_the_same_connection_start_refused_once", 1)
+			s, err = cn.PairSetup(me, a.Code(), rnd)
+		}
+		cn.Close()
+		if err != nil {
+			fail(c, "setup-after-wrong-code-on-the-same-connection:"+stageSig(err), "after a wrong setup code was refused, pair-setup with the right code on the same connection failed: "+err.Error(), nil)
+			return
+		}
+		run.Count("right_code_after_wrong_code_on_the_same_connection", 1)
+	} else {
+		s, err = cn.PairSetup(me, a.Code(), rnd)
+		cn.Close()
+		if err != nil {
+			fail(c, "setup:"+stageSig(err), "pair-setup with the right code failed: "+err.Error(), nil)
+			return
+		}
 	}
 	run.Count("pair_setups_verified", 1)
 	if len(s.M6StateBytes) > 1 {
@@ -494,6 +521,7 @@ func main() {
 	wg.Wait()
 	_ = ed25519.PublicKeySize
 	r.Floor("configurations_completed", int(r.Counter("configurations_completed")), n*9/10)
+	r.Floor("right_code_after_wrong_code_on_the_same_connection+violations", int(r.Counter("right_code_after_wrong_code_on_the_same_connection"))+r.ViolationCount(), n/5)
 	r.Finish()
 }
 
